@@ -18,7 +18,7 @@ COMPONENTS = {"real": ["ECAgent.Core.SystemManager (add_system, remove_system, e
                        "ECAgent.Core.System.clean_up"],
               "stub": ["System.execute bodies are harness recording systems driven by the scenario script"]}
 PROBES = ["actor_first", "actor_middle", "actor_last", "target_before", "target_self", "target_after",
-          "new_higher", "new_equal", "new_lower", "two_mutations_one_step"]
+          "new_higher", "new_equal", "new_lower", "two_mutations_one_step", "hot_swap_same_id"]
 SHRINK_LISTS = ["scripts", "systems"]
 SHRINK_SKIP = ("end",)
 
@@ -42,7 +42,7 @@ def generate(rng, tier):
         actions = []
         for _ in range(rng.choice([1, 1, 1, 2, 2, 3])):
             r = rng.random()
-            if r < 0.22:
+            if r < 0.2:
                 actions.append({"op": "remove_self"})
             elif r < 0.5:
                 actions.append({"op": "remove", "target": rng.choice(known)})
@@ -55,8 +55,15 @@ def generate(rng, tier):
                 actions.append({"op": "add", "sys": spec})
                 known.append(spec["id"])
                 prio_of[spec["id"]] = p
-            elif r < 0.95:
+            elif r < 0.93:
                 actions.append({"op": "add_dup", "target": rng.choice(known)})
+            elif r < 0.97:
+                # hot swap: remove a system and register a NEW instance under the same id
+                tgt = rng.choice(known)
+                spec = {"id": tgt, "prio": prio_of[tgt] + rng.choice([0, 0, 1, -1])}
+                spec.update(gen_window(rng, steps, always=0.85))
+                actions.append({"op": "replace", "sys": spec})
+                prio_of[tgt] = spec["prio"]
             else:
                 actions.append({"op": "remove", "target": f"ghost{rng.randint(0, 3)}"})
         scripts.append({"actor": actor, "t": t, "actions": actions})
@@ -75,17 +82,23 @@ class World:
             self.scripts.setdefault((s["actor"], s["t"]), []).extend(s["actions"])
         self.shape = []
         self.mut_this_step = 0
+        self.gen = 0
+        self.spec_of = {}
+        self.uid_of = {}      # id -> uid of the currently registered instance
 
     def mk(self, spec):
         o = Rec(spec, self.model, self)
+        self.gen += 1
+        o.uid = f"{spec['id']}#{self.gen}"       # instance identity: a re-registered id is a different system
+        self.spec_of[o.uid] = spec
         self.objs[spec["id"]] = o
         return o
 
     def on_execute(self, rec):
         ctx = self.ctx
         t = self.model.systems.timestep
-        self.log.append(("x", rec.id))
-        ctx.event("exec", rec.id, t)
+        self.log.append(("x", rec.id, rec.uid))
+        ctx.event("exec", rec.uid, t)
         for act in self.scripts.get((rec.id, t), []):
             self.perform(rec, act, t)
 
@@ -105,7 +118,7 @@ class World:
             if st != "ok":
                 ctx.fail("midstep-remove:unexpected-exception", f"{type(v).__name__}: {v}")
             ref.remove(rec.id)
-            self.log.append(("r", rec.id))
+            self.log.append(("r", rec.id, self.uid_of.pop(rec.id)))
             self._effective(apos, behind, "remove", "self")
             ctx.probe("target_self")
         elif op == "remove":
@@ -120,7 +133,7 @@ class World:
             if st != "ok":
                 ctx.fail("midstep-remove:unexpected-exception", f"{type(v).__name__}: {v}")
             ref.remove(tgt)
-            self.log.append(("r", tgt))
+            self.log.append(("r", tgt, self.uid_of.pop(tgt)))
             tpos = self._pos(tgt)
             rel = "self" if tgt == rec.id else ("new" if tpos is None else ("before" if tpos < apos else "after"))
             self._effective(apos, behind, "remove", rel)
@@ -130,15 +143,39 @@ class World:
             spec = spec_defaults(act["sys"])
             if ref.has(spec["id"]) or spec["id"] in self.objs:
                 return  # ids of new systems are fresh by construction; a shrunk scenario may repeat one
-            st, v = ctx.call(sm.add_system, self.mk(spec))
+            o = self.mk(spec)
+            st, v = ctx.call(sm.add_system, o)
             ctx.event("add", spec["id"], spec["prio"], st)
             if st != "ok":
                 ctx.fail("midstep-add:unexpected-exception", f"{type(v).__name__}: {v}")
             ref.add(spec)
+            self.uid_of[spec["id"]] = o.uid
             self.added_now.append(spec["id"])
             rel = "higher" if spec["prio"] > rec.priority else ("equal" if spec["prio"] == rec.priority else "lower")
             self._effective(apos, behind, "add", rel)
             ctx.probe("new_" + rel)
+        elif op == "replace":
+            spec = spec_defaults(act["sys"])
+            tgt = spec["id"]
+            if not ref.has(tgt):
+                return
+            st, v = ctx.call(sm.remove_system, tgt)
+            if st != "ok":
+                ctx.fail("midstep-remove:unexpected-exception", f"{type(v).__name__}: {v}")
+            ref.remove(tgt)
+            self.log.append(("r", tgt, self.uid_of.pop(tgt)))
+            o = self.mk(spec)
+            st, v = ctx.call(sm.add_system, o)
+            if st != "ok":
+                ctx.fail("midstep-add:unexpected-exception", f"{type(v).__name__}: {v}")
+            ref.add(spec)
+            self.uid_of[tgt] = o.uid
+            self.added_now.append(tgt)
+            ctx.event("replace", tgt, o.uid)
+            tpos = self._pos(tgt)
+            rel = "self" if tgt == rec.id else ("new" if tpos is None else ("before" if tpos < apos else "after"))
+            self._effective(apos, behind, "replace", rel)
+            ctx.probe("hot_swap_same_id")
         elif op == "add_dup":
             tgt = act["target"]
             if not ref.has(tgt):
@@ -168,7 +205,7 @@ class World:
         t = ref.t
         self.q0 = ref.ids()
         self.elig0 = set(ref.due(t))
-        q0specs = {s["id"]: s for s in ref.q}
+        self.q0_uids = [self.uid_of[sid] for sid in self.q0]
         self.log = []
         self.added_now = []
         self.mut_this_step = 0
@@ -178,38 +215,39 @@ class World:
         ctx.sim_time += 1
         ref.t += 1
         ctx.check(sm.timestep == ref.t, "clock", f"timestep {sm.timestep} != {ref.t}")
-        execs = [e[1] for e in self.log if e[0] == "x"]
+        execs = [e[2] for e in self.log if e[0] == "x"]          # instance uids, in execution order
+        exec_ids = [e[1] for e in self.log if e[0] == "x"]
         # (a) nobody runs twice
         seen = set()
-        for sid in execs:
-            ctx.check(sid not in seen, "rerun", f"t={t}: {sid} executed twice; log={execs} q0={self.q0}")
-            seen.add(sid)
-        # (d) removed before its turn => no later execution
+        for u in execs:
+            ctx.check(u not in seen, "rerun", f"t={t}: {u} executed twice; log={execs} q0={self.q0}")
+            seen.add(u)
+        # (d) removed before its turn => no later execution (by instance: a new system under the same id is another system)
         removed_at = {}
         for i, e in enumerate(self.log):
             if e[0] == "r":
-                removed_at.setdefault(e[1], i)
-            elif e[1] in removed_at:
-                ctx.fail("ran-after-removal", f"t={t}: {e[1]} executed after it was removed; log={self.log}")
+                removed_at.setdefault(e[2], i)
+            elif e[2] in removed_at:
+                ctx.fail("ran-after-removal", f"t={t}: {e[2]} executed after it was removed; log={[x[:3] for x in self.log]}")
         # only eligible systems may run at all (members of Q0 and newcomers alike)
-        allspecs = dict(q0specs)
-        for s in ref.q:
-            allspecs[s["id"]] = s
-        for sid in execs:
-            sp = allspecs.get(sid)
-            ctx.check(sp is not None and ref.eligible(sp, t), "ran-outside-window",
-                      f"t={t}: {sid} executed but is not due; log={execs}")
-        # (b) eligible members of Q0 still registered at the end ran exactly once; (c) in Q0 order
-        stay = [sid for sid in self.q0 if sid in self.elig0 and ref.has(sid)]
-        for sid in stay:
-            ctx.check(sid in seen, "skipped", f"t={t}: {sid} stayed registered and was due but did not run; "
-                                              f"log={execs} q0={self.q0}")
-        order = [sid for sid in execs if sid in stay]
+        for e in self.log:
+            if e[0] == "x":
+                sp = self.spec_of.get(e[2])
+                ctx.check(sp is not None and ref.eligible(sp, t), "ran-outside-window",
+                          f"t={t}: {e[2]} executed but is not due; log={execs}")
+        # (b) eligible members of Q0 still registered (same instance) at the end ran exactly once; (c) in Q0 order
+        stay = [u for sid, u in zip(self.q0, self.q0_uids) if sid in self.elig0 and self.uid_of.get(sid) == u]
+        for u in stay:
+            ctx.check(u in seen, "skipped", f"t={t}: {u} stayed registered and was due but did not run; "
+                                            f"log={execs} q0={self.q0_uids}")
+        order = [u for u in execs if u in stay]
         ctx.check(order == stay, "order", f"t={t}: {order} != {stay}")
+        seen_ids = set(exec_ids)
+        allspecs = {s_["id"]: s_ for s_ in ref.q}
         # (e) newcomers 0 or 1 times (covered by (a)); record which
         for sid in self.added_now:
             if ref.has(sid) and ref.eligible(allspecs[sid], t):
-                ctx.probe("new_system_ran_same_step" if sid in seen else "new_system_deferred")
+                ctx.probe("new_system_ran_same_step" if self.uid_of.get(sid) in seen else "new_system_deferred")
         # (f) registry agrees with the reference after the step
         for sid in set(self.objs) | set(self.q0):
             got = sm[sid]
@@ -218,7 +256,7 @@ class World:
             else:
                 ctx.check(got is None, "registry", f"{sid} should not be registered")
         if self.mut_this_step == 0:
-            ctx.check(execs == [s for s in self.q0 if s in self.elig0], "quiet-step-order",
+            ctx.check(exec_ids == [s for s in self.q0 if s in self.elig0], "quiet-step-order",
                       f"t={t}: {execs} != due {sorted(self.elig0)} in order {self.q0}")
         ctx.state([ref.ids(), t % 4])
 
@@ -229,8 +267,10 @@ def execute(sc, ctx):
         spec = spec_defaults(spec)
         if w.ref.has(spec["id"]):
             continue
-        ctx.expect_ok("setup-add", w.model.systems.add_system, w.mk(spec))
+        o = w.mk(spec)
+        ctx.expect_ok("setup-add", w.model.systems.add_system, o)
         w.ref.add(spec)
+        w.uid_of[spec["id"]] = o.uid
     for _ in range(min(int(sc["steps"]), 40)):
         w.step()
     ctx.sig = w.shape
